@@ -59,4 +59,86 @@ theorem reports_flush_matches_source (cfg : C04.Cfg) (cur : List CheckResult) (g
       Gen.Src.reportsFlush cur.length cfg.batch gas r.gas cfg.overhead cfg.gasLimit ((cur.map (·.upkeepID)).contains r.upkeepID) :=
   C04.flush_matches_source cfg cur gas r
 
+
+/-! ### decision trees: the order of the error exits and the loop bodies (`"kind": "tree"`, regenerated on every run) -/
+
+/-- the upkeep type as the number the source compares with (`types.ConditionTrigger = 0`, `types.LogTrigger = 1`) -/
+def typeCode : UpkeepType → Nat
+  | .condition => 0
+  | .log => 1
+  | .other => 2
+
+private theorem obsTree_exit (a A b B c C L d e : Nat) :
+    Gen.Src.c03ObsTree a A b B c C L d e = 11 ↔ (a ≤ A ∧ b ≤ B ∧ c ≤ C + L ∧ d ≤ C ∧ e ≤ L) := by
+  simp only [Gen.Src.c03ObsTree, decide_eq_true_eq]
+  repeat' split
+  all_goals omega
+
+private theorem outcomeTree_exit (a A r R : Nat) :
+    Gen.Src.c03OutcomeTree a A r R = 8 ↔ (a ≤ A ∧ r ≤ R) := by
+  simp only [Gen.Src.c03OutcomeTree, decide_eq_true_eq]
+  repeat' split
+  all_goals omega
+
+private theorem roundTree_exit (n l : Nat) : Gen.Src.c03OutcomeRoundLoopTree n l = 0 ↔ n ≤ l := by
+  simp only [Gen.Src.c03OutcomeRoundLoopTree, decide_eq_true_eq]
+  split <;> omega
+
+/-- **`validateAutomationObservation` is the source's tree of error exits.**  The function body — which limit is tested
+first, and that `return nil` (exit 11) is reached only when none of the five tests fires — and the three loop bodies —
+per element: validation error first, then the `seen` test, exit 0 = next element — are read off the source on every run;
+the model's Boolean equals "the body reaches `return nil` and every loop runs to its end" for every observation. -/
+theorem validObservation_tree_matches_source (ctx : Ctx) (lim : Limits) (o : Observation) :
+    validObservation ctx lim o =
+      (decide (Gen.Src.c03ObsTree o.blockHistory.length lim.obsBlockHistory o.performable.length lim.obsPerformables
+          o.proposals.length lim.obsCondProposals lim.obsLogProposals
+          (o.proposals.filter (fun p => ctx.utg p.upkeepID = .condition)).length
+          (o.proposals.filter (fun p => ctx.utg p.upkeepID = .log)).length = 11) &&
+       runLoop (fun (b : BlockKey) => b.number) (fun _ seen => Gen.Src.c03ObsHistLoopTree seen) [] o.blockHistory &&
+       runLoop (fun (r : CheckResult) => r.workID)
+         (fun r seen => Gen.Src.c03ObsPerfLoopTree (!validCheckResult ctx r) seen) [] o.performable &&
+       runLoop (fun (p : Proposal) => p.workID)
+         (fun p seen => Gen.Src.c03ObsPropLoopTree (!validProposal ctx p) seen (typeCode (ctx.utg p.upkeepID)))
+         [] o.proposals) := by
+  have l1 := runLoop_all_nodup (fun (b : BlockKey) => b.number) (fun _ seen => Gen.Src.c03ObsHistLoopTree seen)
+    (fun _ => true) (by intro x s; cases s <;> simp [Gen.Src.c03ObsHistLoopTree]) o.blockHistory
+  have l2 := runLoop_all_nodup (fun (r : CheckResult) => r.workID)
+    (fun r seen => Gen.Src.c03ObsPerfLoopTree (!validCheckResult ctx r) seen) (validCheckResult ctx)
+    (by intro x s; cases s <;> cases validCheckResult ctx x <;> simp [Gen.Src.c03ObsPerfLoopTree]) o.performable
+  have l3 := runLoop_all_nodup (fun (p : Proposal) => p.workID)
+    (fun p seen => Gen.Src.c03ObsPropLoopTree (!validProposal ctx p) seen (typeCode (ctx.utg p.upkeepID))) (validProposal ctx)
+    (by intro x s; cases s <;> cases validProposal ctx x <;> simp [Gen.Src.c03ObsPropLoopTree]) o.proposals
+  rw [l1, l2, l3, Bool.eq_iff_iff]
+  simp only [validObservation, Bool.and_eq_true, decide_eq_true_eq, obsTree_exit, List.all_eq_true]
+  constructor
+  · rintro ⟨⟨⟨⟨⟨⟨⟨⟨⟨h1, h2⟩, h3⟩, h4⟩, h5⟩, h6⟩, h7⟩, h8⟩, h9⟩, h10⟩
+    exact ⟨⟨⟨⟨h1, h3, h6, h9, h10⟩, fun _ _ => trivial, h2⟩, h4, h5⟩, h7, h8⟩
+  · rintro ⟨⟨⟨⟨h1, h3, h6, h9, h10⟩, _, h2⟩, h4, h5⟩, h7, h8⟩
+    exact ⟨⟨⟨⟨⟨⟨⟨⟨⟨h1, h2⟩, h3⟩, h4⟩, h5⟩, h6⟩, h7⟩, h8⟩, h9⟩, h10⟩
+
+/-- **`validateAutomationOutcome` is the source's tree of error exits**: the body (agreed limit, then round-history
+limit, `return nil` = exit 8) and the loop bodies over the agreed performables, over the rounds (per-round limit) and over
+the proposals of a round (validation error, then the `seen` test; the `seen` map spans all rounds). -/
+theorem validOutcome_tree_matches_source (ctx : Ctx) (lim : Limits) (o : Outcome) :
+    validOutcome ctx lim o =
+      (decide (Gen.Src.c03OutcomeTree o.agreed.length lim.agreedLimit o.surfaced.length lim.roundHistory = 8) &&
+       runLoop (fun (r : CheckResult) => r.workID)
+         (fun r seen => Gen.Src.c03OutcomeAgreedLoopTree (!validCheckResult ctx r) seen) [] o.agreed &&
+       o.surfaced.all (fun round => decide (Gen.Src.c03OutcomeRoundLoopTree round.length lim.perRound = 0)) &&
+       runLoop (fun (p : Proposal) => p.workID)
+         (fun p seen => Gen.Src.c03OutcomeProposalLoopTree (!validProposal ctx p) seen) [] o.surfaced.flatten) := by
+  have l1 := runLoop_all_nodup (fun (r : CheckResult) => r.workID)
+    (fun r seen => Gen.Src.c03OutcomeAgreedLoopTree (!validCheckResult ctx r) seen) (validCheckResult ctx)
+    (by intro x s; cases s <;> cases validCheckResult ctx x <;> simp [Gen.Src.c03OutcomeAgreedLoopTree]) o.agreed
+  have l2 := runLoop_all_nodup (fun (p : Proposal) => p.workID)
+    (fun p seen => Gen.Src.c03OutcomeProposalLoopTree (!validProposal ctx p) seen) (validProposal ctx)
+    (by intro x s; cases s <;> cases validProposal ctx x <;> simp [Gen.Src.c03OutcomeProposalLoopTree]) o.surfaced.flatten
+  rw [l1, l2, Bool.eq_iff_iff]
+  simp only [validOutcome, Bool.and_eq_true, decide_eq_true_eq, outcomeTree_exit, roundTree_exit, List.all_eq_true]
+  constructor
+  · rintro ⟨⟨⟨⟨⟨⟨h1, h2⟩, h3⟩, h4⟩, h5⟩, h6⟩, h7⟩
+    exact ⟨⟨⟨⟨h1, h4⟩, h2, h3⟩, h5⟩, h6, h7⟩
+  · rintro ⟨⟨⟨⟨h1, h4⟩, h2, h3⟩, h5⟩, h6, h7⟩
+    exact ⟨⟨⟨⟨⟨⟨h1, h2⟩, h3⟩, h4⟩, h5⟩, h6⟩, h7⟩
+
 end AutoVerif.C03
